@@ -70,7 +70,7 @@ def build_site(site, basic, caps):
 
 def cases(seed, tier):
     rng = random.Random(f"C16:{seed}")
-    reps, nd = (3, 36) if tier == "quick" else (60, 260)
+    reps, nd = (3, 36) if tier == "quick" else (14, 140)
     out = []
     for site, defaults in (("caltech", (150,)), ("office001", (50,)), ("jpl", (45, 150))):
         for basic in (True, False):
